@@ -269,7 +269,9 @@ namespace sqf::parser::sqf
                     {
                         if (is_match<'\''>(iter) && is_match<'\''>(iter + 1))
                         {
+                            // an escaped quote is two characters of the line
                             ++iter;
+                            m_column++;
                         }
                         else if (is_match<'\''>(iter))
                         {
@@ -307,7 +309,9 @@ namespace sqf::parser::sqf
                     {
                         if (is_match<'"'>(iter) && is_match<'"'>(iter + 1))
                         {
+                            // an escaped quote is two characters of the line
                             ++iter;
+                            m_column++;
                         }
                         else if (is_match<'"'>(iter))
                         {
